@@ -8,6 +8,11 @@ BASELINE = ("cd /repo && cargo nextest run --workspace --no-fail-fast --tool-con
 
 # id -> (engine, category, technique, level text, level note, design ref)
 CHECKS = {
+ "C06": ("mc-graph", "model_checking",
+         "explicit-state BFS over the real CompositionGraph in lock-step with a reference model (E1)",
+         "Level-synchronous BFS over the real graph with the full operation alphabet (register/unregister/instantiate/alias/import/set+unset argument/export/unexport/define type/name/remove) and every live identifier, from the empty graph and 6 hand-built seed states, depth 3 (quick) / 4 (thorough). Every transition's result class must be one the rustdoc admits for the model state; every new state is checked on all public queries against the model, on the H1 internal invariants, on encode under 4 option vectors against the predicted outcome and the reference validator, and by replaying its history on a fresh graph.",
+         "Trusts the reference model (DESIGN.md A.1) and the tabulated name validity (wasmparser's name parser). Histories beyond the depth, more than 4/5 live nodes, and type shapes outside the 3-package library are not covered.",
+         "DESIGN.md §4 E1, §5 C06, A.1"),
  "C15": ("mc-graph", "model_checking",
          "explicit-state exploration of NameMap insertion histories in lock-step with a reference map + exhaustive pair enumeration",
          "Every ordered pair of a 272-name universe is compared with an independent implementation of the semver track relation, and every NameMap insertion history up to depth 3 (quick) / 4 (thorough) over 16 colliding names is explored on the real map; in every reached state every universe name is looked up and compared with the reference answer, and states reached by different orders of the same insertions must answer identically.",
